@@ -7,7 +7,7 @@
    the list of the visible graphs it has seen, in order. *)
 From Coq Require Import List NArith ZArith Arith Bool Lia Permutation.
 From Mamba Require Import Disjoint.Model Search.Model Search.SaveModel.
-From Mamba Require Import Search.ShardModel Search.ShardSim Search.Shard Search.Prune.
+From Mamba Require Import Search.ShardModel Search.ShardSim Search.Shard Search.Prune Search.ShardWf.
 Import ListNotations.
 Local Open Scope nat_scope.
 
@@ -50,6 +50,14 @@ Proof.
   apply (outputs_spec _ _ _ _ _ canon_novb) in R1.
   rewrite (spec_prune canon ksub_reps P HP n a m pre post (conj H1 (conj H2 H3)) L R0) in R1.
   inversion R1. reflexivity.
+Qed.
+
+(* Every yielded value is a well-formed graph on exactly n vertices. *)
+Theorem outputs_wf : forall preprune prune n a m calls fuel L,
+  outs preprune prune calls fuel (init n a m) = Ok L -> Forall (wf_graph n) L.
+Proof.
+  intros preprune prune n a m calls fuel L H.
+  apply (outputs_spec _ _ _ _ _ canon_novb) in H. eapply spec_wf; eauto.
 Qed.
 
 End Top.
